@@ -567,6 +567,12 @@ def main(argv=None) -> int:
             return 0
 
         nshards = 1 if tier == 'quick' else getattr(mod, 'SHARDS', args.shards)
+        # stale replay files of earlier runs must not be mistaken for this run's findings
+        rdir = os.path.join(VERIF, 'out', 'replays', prop)
+        if os.path.isdir(rdir) and not os.environ.get('VERIF_KEEP_REPLAYS'):
+            for fn in os.listdir(rdir):
+                if fn.endswith('.json'):
+                    os.unlink(os.path.join(rdir, fn))
         ctx = Ctx(prop, tier, seed, 0, nshards)
         if nshards == 1:
             run_check_inprocess(ctx, mod)
